@@ -332,6 +332,39 @@ pub fn hint_mutants<S: MlDsa>(sig: &[u8], p: &mut Prng) -> Vec<(String, Vec<u8>)
     v
 }
 
+/// Hint SECTIONS (omega + k bytes) whose positions form one strictly increasing run (so that no ordering test fires early)
+/// and whose count vector is well-formed up to a break index j, over-large at j, then continues in one of four ways, with
+/// the LAST count chosen independently (a decoder may bound only the final count, or only the first, or bound each count
+/// after having consumed the row): break index x value x continuation x last count, on two position bases.
+pub fn hint_count_lattice<S: MlDsa>(nbases: usize) -> Vec<(String, Vec<u8>)> {
+    let (om, k) = (S::OMEGA as usize, S::K);
+    let grid = [om + 1, om + k - 2, om + k - 1, om + k, om + k + 1, 200, 254, 255];
+    let mut v = vec![];
+    for o in [0usize, 3].into_iter().take(nbases) {
+        for j in 0..k {
+            for &g in grid.iter() {
+                for cont in ["+1", "+2", "same", "omega"] {
+                    for last in ["0", "omega-1", "omega", "cont"] {
+                        if j == k - 1 && last != "cont" { continue; }
+                        let mut y = vec![0u8; om + k];
+                        for i in 0..om { y[i] = (i + o) as u8; }
+                        let mut prev = 0usize;
+                        for i in 0..k {
+                            let c = if i < j { (i + 1) * (om / k) } else if i == j { g } else {
+                                match cont { "+1" => (prev + 1).min(255), "+2" => (prev + 2).min(255), "same" => prev, _ => om } };
+                            let c = if i == k - 1 && i > j { match last { "0" => 0, "omega-1" => om - 1, "omega" => om, _ => c } } else { c };
+                            y[om + i] = c as u8;
+                            prev = c;
+                        }
+                        v.push((format!("count lattice: base +{}, count[{}] = {}, then {}, last {}", o, j, g, cont, last), y));
+                    }
+                }
+            }
+        }
+    }
+    v
+}
+
 pub fn verify<S: MlDsa>(seed: u64, nacc: usize, nrand: usize, stress: bool, out: &mut Out) {
     let mut p = Prng::new(seed, 0x0200 + S::SET as u64);
     let (g1, beta, om) = (S::GAMMA1, S::beta(), S::OMEGA as usize);
